@@ -6,6 +6,7 @@
 REPO="${1:-/repo}"; OUT="${2:-/tmp/suite}"; JOBS="${3:-12}"
 mkdir -p "$OUT"; rm -f "$OUT"/*.log
 cd "$REPO" || exit 2
+PYTHONPATH=$REPO/src /venv/bin/python -c "import scenic.syntax.parser" >/dev/null 2>&1  # build the parser once, before the shards race to build it
 find tests -name 'test_*.py' | sort > "$OUT/files.txt"
 export REPO OUT
 cat "$OUT/files.txt" | xargs -P "$JOBS" -I{} bash -c 'f={}; n=$(echo $f | tr "/" "_"); PYTHONPATH=$REPO/src /venv/bin/python -m pytest -ra -q -p no:cacheprovider --timeout=900 "$f" > "$OUT/$n.log" 2>&1; echo "$f rc=$?" >> "$OUT/rc.txt"'
